@@ -739,6 +739,11 @@ func ruleP13Decoders(p *Prog, r *Report) {
 		c := cs[0]
 		// argument derives from the raw value
 		r.check(derivesFromCell(c.Common().Args[0], val, 0), rule, d.fn+":ctor-arg", p.instrPos(c), d.ctor+" parses the flag's value", d.ctor+" is not applied to the flag's value")
+		// … as typed: values are compared with the file's text as written there (tag values,
+		// summaries) and notations are case-sensitive (8:00am, Q1, W05)
+		if how := caseMappingIn(c.Common().Args[0], 0); how != "" {
+			r.bad(rule, d.fn+":ctor-arg:case", p.instrPos(c), "%s changes the letter case of the flag's value (%s) before %s parses it: the query no longer means the text the user typed (a tag value `ABC` would select `abc`)", d.fn, how, d.ctor)
+		}
 		e := resultOf(c, 1)
 		if e == nil {
 			r.bad(rule, d.fn+":ctor-err", p.instrPos(c), "the error of %s is discarded", d.ctor)
@@ -1082,4 +1087,42 @@ func ruleP13ArgsApplied(p *Prog, r *Report) {
 		}
 	}
 	r.floor(rule, 7)
+}
+
+// caseMappingIn: the value is computed through a function that changes letter case.
+func caseMappingIn(v ssa.Value, depth int) string {
+	if depth > 8 {
+		return ""
+	}
+	v = strip(v)
+	switch x := v.(type) {
+	case *ssa.Call:
+		if g := staticCallee(x); g != nil {
+			switch g.String() {
+			case "strings.ToLower", "strings.ToUpper", "strings.ToTitle", "strings.Title", "strings.Map", "strings.ToLowerSpecial", "strings.ToUpperSpecial", "bytes.ToLower", "bytes.ToUpper":
+				return g.String()
+			}
+		}
+		for _, a := range x.Call.Args {
+			if h := caseMappingIn(a, depth+1); h != "" {
+				return h
+			}
+		}
+	case *ssa.Slice:
+		return caseMappingIn(x.X, depth+1)
+	case *ssa.Phi:
+		for _, e := range x.Edges {
+			if h := caseMappingIn(e, depth+1); h != "" {
+				return h
+			}
+		}
+	case *ssa.BinOp:
+		if h := caseMappingIn(x.X, depth+1); h != "" {
+			return h
+		}
+		return caseMappingIn(x.Y, depth+1)
+	case *ssa.Convert:
+		return caseMappingIn(x.X, depth+1)
+	}
+	return ""
 }
